@@ -227,6 +227,7 @@ struct Sim {
     if (opt.failover_chance >= 0) { o.server_failover_opts.retry_chance = (unsigned short)opt.failover_chance; o.server_failover_opts.retry_delay = (size_t)opt.failover_delay; mask |= ARES_OPT_SERVER_FAILOVER; }
     int rcI = ares_init_options(&ch, &o, mask);
     if (rcI != ARES_SUCCESS) { ch = nullptr; notes.push_back("init failed: " + std::string(ares_strerror(rcI))); return false; }
+    w.chan = ch;
     struct ares_socket_functions_ex f; memset(&f, 0, sizeof f); f.version = 1; f.flags = opt.nonblock ? ARES_SOCKFUNC_FLAG_NONBLOCKING : 0;
     f.asocket = World::s_socket; f.aclose = World::s_close; f.asetsockopt = World::s_setsockopt; f.aconnect = World::s_connect; f.arecvfrom = World::s_recvfrom; f.asendto = World::s_sendto; f.agetsockname = World::s_getsockname;
     ares_set_socket_functions_ex(ch, &f, nullptr);
@@ -347,7 +348,7 @@ struct Sim {
   void destroy() {
     if (!ch || destroyed) return;
     for (auto &kv : reqs) if (kv.second.started && kv.second.accepted && kv.second.calls == 0) kv.second.pending_at_destroy = true;
-    in_destroy = true; ares_destroy(ch); in_destroy = false; destroyed = true; ch = nullptr;
+    in_destroy = true; ares_destroy(ch); in_destroy = false; destroyed = true; ch = nullptr; w.chan = nullptr;
   }
 
   ~Sim() { for (auto a : cbargs) delete a; }
